@@ -168,6 +168,36 @@ fn roundtrip<C: Suite>(n: u16, t: u16, idkind: IdKind, seed: &str) -> Outcome {
         }
         o.count("roundtrips_ok", 1);
     }
+    // signing packages over the message alphabet (empty, block boundaries, 1000 bytes) and key / public
+    // packages with thresholds at the varint boundaries
+    for mi in 0..11 {
+        let pkg = fc::SigningPackage::<C>::new(m.sess.pkg.signing_commitments().clone(), &message(mi));
+        o.eval(true);
+        let ok_bin = pkg.serialize().ok().and_then(|b| fc::SigningPackage::<C>::deserialize(&b).ok()).as_ref() == Some(&pkg);
+        let ok_json = serde_json::to_string(&pkg).ok().and_then(|j| serde_json::from_str::<fc::SigningPackage<C>>(&j).ok()).as_ref() == Some(&pkg);
+        if !ok_bin || !ok_json {
+            o.fail(format!("{tag}/roundtrip/SigningPackage/message-alphabet"), format!("message #{mi} ({} bytes): binary ok={ok_bin} json ok={ok_json}", message(mi).len()));
+        } else {
+            o.count("roundtrips_ok", 1);
+        }
+    }
+    {
+        let kp0 = m.grp.kps.values().next().unwrap();
+        for ms in [0u16, 1, 127, 128, 255, 256, 16383, 16384, 65534, 65535] {
+            let kp = fc::keys::KeyPackage::<C>::new(*kp0.identifier(), *kp0.signing_share(), *kp0.verifying_share(), *kp0.verifying_key(), ms);
+            let pk = fc::keys::PublicKeyPackage::<C>::new(m.grp.pkp.verifying_shares().clone(), *m.grp.pkp.verifying_key(), Some(ms));
+            o.eval(true);
+            let a = kp.serialize().ok().and_then(|b| fc::keys::KeyPackage::<C>::deserialize(&b).ok()).as_ref() == Some(&kp);
+            let b = serde_json::to_string(&kp).ok().and_then(|j| serde_json::from_str::<fc::keys::KeyPackage<C>>(&j).ok()).as_ref() == Some(&kp);
+            let c = pk.serialize().ok().and_then(|b| fc::keys::PublicKeyPackage::<C>::deserialize(&b).ok()).as_ref() == Some(&pk);
+            let d = serde_json::to_string(&pk).ok().and_then(|j| serde_json::from_str::<fc::keys::PublicKeyPackage<C>>(&j).ok()).as_ref() == Some(&pk);
+            if !(a && b && c && d) {
+                o.fail(format!("{tag}/roundtrip/threshold-boundary"), format!("min_signers={ms}: KeyPackage bin={a} json={b}; PublicKeyPackage bin={c} json={d}"));
+            } else {
+                o.count("roundtrips_ok", 1);
+            }
+        }
+    }
     // pre-3.0 public key package: binary form is the new form minus the trailing option
     if let (Ok(newb), Ok(oldb)) = (
         m.grp.pkp.serialize(),
